@@ -53,11 +53,12 @@ fi
 # scratch mode
 ROOT="/tmp/seedchk.$$.root"; mkdir -p "$ROOT/bin"
 cp /verif/known_findings.json "$ROOT/"; cp -r /verif/findings "$ROOT/findings"
-sed "s|=> /repo|=> $WT|" /verif/harness/go.mod > "$ROOT/go.mod"
-cat "$WT/go.sum" /verif/harness/go.sum.extra | sort -u > "$ROOT/go.sum"
+HD="${HARNESS_DIR:-/verif/harness}"   # refreshseeds.sh points this at a snapshot so that the harness can be edited meanwhile
+sed "s|=> /repo|=> $WT|" "$HD/go.mod" > "$ROOT/go.mod"
+cat "$WT/go.sum" "$HD/go.sum.extra" | sort -u > "$ROOT/go.sum"
 need_race=0; need_plain=0
 for c in $CHECKS; do [ $c = C12 ] && need_race=1 || need_plain=1; done
-( cd /verif/harness
+( cd "$HD"
   rc=0
   if [ $need_plain = 1 ]; then go build -modfile="$ROOT/go.mod" -tags verif -o "$ROOT/bin/mon-plain" ./cmd/mon || rc=1; fi
   if [ $need_race = 1 ]; then go build -modfile="$ROOT/go.mod" -race -tags verif -o "$ROOT/bin/mon-race" ./cmd/mon || rc=1; fi
